@@ -11,7 +11,9 @@ def jOpt {α} (f : Json → Except String α) (j : Json) : Except String (Option
   | _ => do pure (some (← f j))
 
 def jEvalFn (j : Json) : Except String (List Rat → Rat) := do
-  let e ← jFExpr j
+  let e ← match j.getObjVal? "e" with
+    | .ok ej => jFExpr ej
+    | .error _ => jFExpr j
   pure (fun xs => e.eval xs)
 
 def jStoich (j : Json) : Except String (List (String × Coef)) := jAssoc jCoef j
@@ -103,11 +105,75 @@ def jQuery (j : Json) : Except String Query := do
       pure (.stoichvar (← jStr x) (← jOpt (jList jRat) v) (← jRat t))
   | _ => .error s!"bad query {j.compress}"
 
+/-! signatures of the function objects an op passes (wire: optional `"sig": [nargs, ndefaults|null, nkwonly, varargs]`
+    next to `"e"`; without it the harness compiles a function with max(number of args, highest index + 1)
+    positional parameters) -/
+
+def maxArgP1 : FExpr → Nat
+  | .arg i => i + 1
+  | .const _ => 0
+  | .add a b | .sub a b | .mul a b => max (maxArgP1 a) (maxArgP1 b)
+  | .neg a => maxArgP1 a
+
+def jSig (j : Json) : Except String Gen.Sig := do
+  match ← jArr j with
+  | [n, d, k, v] => pure { nargs := ← jNat n, defaults := ← jOpt jNat d, kwonly := ← jNat k, varargs := ← jBool v }
+  | _ => .error s!"bad sig {j.compress}"
+
+/-- signature of FN = {"args", "e", ["sig"]} -/
+def fnSig (j : Json) : Except String Gen.Sig := do
+  match j.getObjVal? "sig" with
+  | .ok sj => jSig sj
+  | .error _ =>
+    let args ← jList jStr (← field j "args")
+    let e ← jFExpr (← field j "e")
+    pure { nargs := max args.length (maxArgP1 e) }
+
+/-- signature of the function argument of update_derived / update_reaction (bare FExpr or {"e", "sig"}) -/
+def bareSig (j : Json) (newArgs : Json) : Except String Gen.Sig := do
+  let n ← match newArgs with
+    | .null => pure 0
+    | a => do pure (← jList jStr a).length
+  match j.getObjVal? "sig" with
+  | .ok sj => jSig sj
+  | .error _ =>
+    let e ← match j.getObjVal? "e" with
+      | .ok ej => jFExpr ej
+      | .error _ => jFExpr j
+    pure { nargs := max n (maxArgP1 e) }
+
+def valSig (n : Json) (v : Json) : Except String (List (String × Gen.Sig)) := do
+  match v.getObjVal? "ia" with
+  | .ok f => pure [(← jStr n, ← fnSig f)]
+  | .error _ => pure []
+
+def valsSig (l : Json) : Except String (List (String × Gen.Sig)) := do
+  let ps ← jList (fun p => do
+    match ← jArr p with
+    | [n, v] => valSig n v
+    | _ => .error "bad pair") l
+  pure ps.flatten
+
+def givenOf (j : Json) : Except String (List (String × Gen.Sig)) := do
+  match ← jArr j with
+  | [.str "add_parameter", n, v] | [.str "add_variable", n, v] | [.str "update_variable", n, v] => valSig n v
+  | [.str "update_parameter", n, v] => match v with
+    | .null => pure []
+    | v => valSig n v
+  | [.str "add_parameters", l] | [.str "update_parameters", l] | [.str "add_variables", l]
+  | [.str "update_variables", l] => valsSig l
+  | [.str "add_derived", n, f] | [.str "add_readout", n, f] | [.str "add_reaction", n, f] =>
+    pure [(← jStr n, ← fnSig f)]
+  | [.str "update_derived", n, e, a] | [.str "update_reaction", n, e, a, _] => match e with
+    | .null => pure []
+    | e => do pure [(← jStr n, ← bareSig e a)]
+  | _ => pure []
+
 def jHOp (j : Json) : Except String HOp := do
   match ← jArr j with
   | .str "q" :: _ => pure (.ask (← jQuery j))
   | [.str "fork"] => pure .fork
-  | _ => pure (.edit (← jMut j))
+  | _ => pure (.edit (← jMut j) (← givenOf j))
 
 def errClass : Err → Json
   | .keyError _ => .str "KeyError"
@@ -156,8 +222,8 @@ def runAll (start : Nat) : Nat → State → List HOp → List Json → List Jso
   | i, s, h :: rest, acc =>
     let (s', o) : State × Json :=
       match h with
-      | .edit op =>
-        let r := step s op
+      | .edit op given =>
+        let r := stepS s op given
         (r.1, obs r.1 (match r.2 with | .ok () => .str "ok" | .error e => errClass e) .null)
       | .ask q =>
         let r := query s q
